@@ -767,7 +767,7 @@ def rule_workcb(ctx, rep, rid):
 
 def rule_count_approx(ctx, rep, rid):
     """cds_lfht_count_nodes: both approximations sum add - del over every split counter, index 0 .. split_count_mask"""
-    m = ctx.mod("cds", "perfn")
+    m = ctx.mod("cds", "flat")      # exported root: a helper extracted for the two loops is inlined again
     f = m.fn("cds_lfht_count_nodes")
     if f is None:
         raise Broken("cds_lfht_count_nodes vanished")
